@@ -316,6 +316,16 @@ def stepLine (st : Mode) (line : String) : Mode × String :=
     if (ty = "int" ∨ ty = "trk") ∧ (var = "v" ∨ var = "p") then
       (.vec (var = "p") (ty = "trk") St.init, "ok")
     else (.idle, "bad-op")
+  | ["premain"] => (st, "4:0,99,9,12 eq=1 cget=0,10 it=1>10;2>20; set=102")
+  | ["long", _, n] =>
+    -- closed form of the std::vector meaning of the long history (the slot model is not run on 80 000 elements):
+    -- values 7 i + 1, one insert of -5 at n/2, erase [10, n/4), 500 value-initialised elements appended
+    match n.toNat? with
+    | none => (st, "bad-op")
+    | some n =>
+      let full : Int := (List.range n).foldl (fun (a : Int) (i : Nat) => a + (7 * (i : Int) + 1)) 0
+      let cut : Int := ((List.range (n / 4)).drop 10).foldl (fun (a : Int) (i : Nat) => a + (7 * (i : Int) + 1)) 0
+      (st, s!"{n + 1 - (n / 4 - 10) + 500} {full - 5 - cut} 1")
   | ws =>
     match st with
     | .idle => (st, "bad-op")
@@ -347,11 +357,14 @@ def stepLine (st : Mode) (line : String) : Mode × String :=
       else
         -- `a <k> <op …>` / `al <n> <op …>`: the operation runs with an allocation failure armed (Alloc.lean); after
         -- a failure the state must be the one the strong guarantee demands and the operation is run again unarmed
+        let ws0 := ws
         let (af, ws) : Option AF × List String :=
           match ws with
           | "a" :: k :: rest => (k.toNat?.map AF.kth, rest)
           | "al" :: k :: rest => (k.toNat?.map AF.above, rest)
+          | "alx" :: k :: rest => (k.toNat?.map AF.above, rest)
           | _ => (none, ws)
+        let noRetry := ws0.head? == some "alx"
         -- `x <k> <op …>`: the operation runs with the exception fuse k (Exc.lean)
         let (fz, ws) : Option Nat × List String :=
           match ws with
@@ -360,6 +373,7 @@ def stepLine (st : Mode) (line : String) : Mode × String :=
         match parseOp ws with
         | none => (st, "bad-op")
         | some (op, temps) =>
+          let s0 := s
           let (s, afnote, dead) : St × String × Bool :=
             match af with
             | none => (s, "", false)
@@ -369,6 +383,11 @@ def stepLine (st : Mode) (line : String) : Mode × String :=
               | .ok _ => (s, " af=ok", false)
               | .threw (s1, _) => (s1, if afterFailureOk s s1 op then " af=ok" else " af=BAD", false)
           if dead then (.faulted, "fault") else
+          if noRetry then
+            -- a request no allocator grants: refused, nothing changed, no retry
+            (.vec p t s, (if afnote == " af=ok" && (match af with | some af => allocFails s0 af op | none => false)
+              then s!"badalloc {showState t s0 s op true}" else "not-refused"))
+          else
           match stepX p s fz op with
           | .fault => (.faulted, "fault")
           | .threw (s', _) =>
